@@ -50,7 +50,7 @@ pub fn main(a: &Args) -> i32 {
     let workers = a.u64("workers", 2) as usize;
     let connect = a.u64("connect", 1) == 1;
     let modes = ["idle-handles", "drop-handles-then-runtime", "gate:shut.closed", "gate:shut.aborted", "gate:h.closing",
-                 "after-shutdown", "random", "shutdown-blocking-handler", "shutdown-slow-drop", "shutdown-held-peer", "shutdown-inflight-call"];
+                 "after-shutdown", "random", "shutdown-blocking-handler", "shutdown-slow-drop", "shutdown-held-peer", "shutdown-inflight-call", "disconnect-then-shutdown"];
     let mut results: Vec<Value> = Vec::new();
     let mut hung = false;
     for t in 0..trials {
@@ -118,6 +118,51 @@ pub fn main(a: &Args) -> i32 {
                 drop(a_net);
                 drop(b_net);
                 std::thread::sleep(Duration::from_micros(rng.gen_range(0..3_000)));
+            }
+            "disconnect-then-shutdown" => {
+                // the peer whose request sits in a non-yielding handler is disconnected (or hangs
+                // up) right before shutdown(): its connection handler has already deregistered
+                // the peer but is still winding its request tasks down
+                let live = a_live.clone().unwrap();
+                let remote_hangs_up = rng.gen_bool(0.5);
+                let (leaked, sub_open) = rt.block_on(async {
+                    let b2 = b_net.clone();
+                    let to = a_net.peer_id();
+                    tokio::spawn(async move {
+                        let _ = b2.rpc(to, Request::new(Bytes::from_static(b"x")).with_header("block-ms", "700").with_header("nonce", "0")).await;
+                    });
+                    tokio::time::sleep(Duration::from_millis(150)).await;
+                    let sub = a_net.subscribe().ok();
+                    if remote_hangs_up {
+                        let _ = b_net.disconnect(a_net.peer_id());
+                        tokio::time::sleep(Duration::from_millis(30)).await;
+                    } else {
+                        let _ = a_net.disconnect(b_net.peer_id());
+                    }
+                    let _ = tokio::time::timeout(Duration::from_secs(10), a_net.shutdown()).await;
+                    let leaked = live.load(std::sync::atomic::Ordering::SeqCst);
+                    // a subscriber must be at end-of-stream now (Closed), not merely empty
+                    let sub_open = match sub {
+                        Some((mut rx, _)) => loop {
+                            match rx.try_recv() {
+                                Ok(_) => continue,
+                                Err(tokio::sync::broadcast::error::TryRecvError::Closed) => break false,
+                                Err(tokio::sync::broadcast::error::TryRecvError::Lagged(_)) => continue,
+                                Err(tokio::sync::broadcast::error::TryRecvError::Empty) => break true,
+                            }
+                        },
+                        None => false,
+                    };
+                    (leaked, sub_open || a_net.subscribe().is_ok())
+                });
+                if leaked != 0 {
+                    leaks.push(format!("{leaked} clone(s) of the user's service still alive when shutdown() returned (peer disconnected just before, handler mid-poll)"));
+                }
+                if sub_open {
+                    leaks.push("subscription not closed when shutdown() returned (peer disconnected just before)".into());
+                }
+                keep.push(a_net);
+                keep.push(b_net);
             }
             "shutdown-blocking-handler" => {
                 // a request whose handler sits in a non-yielding section on a worker while the
